@@ -1,11 +1,12 @@
 /-
   C11 — Incentive contract: staked LP is held one-for-one and returned to its owner.
   Property theorems only (helpers in WW/Proofs/{Incentive,Flows,Ledger,FlowSums,ClaimLedger,PosDelta,HistKeys,
-  FlowDelta,FlowBacked,Backed,Custody,CustodyHist,FlowExact,HelperKeeps,PosKeys}.lean). The model `WW.Inc.step` is the
+  FlowDelta,FlowBacked,Backed,Custody,CustodyHist,FlowExact,HelperKeeps,PosKeys,AssetKinds}.lean). The model `WW.Inc.step` is the
   replica of the incentive contract + frontend helper path (engine `incentive`), following the repaired
   code (expand_flow dispatches its TransferFrom; flow reset keeps the original amount).
 -/
 import WW.Proofs.PosKeys
+import WW.Proofs.AssetKinds
 namespace WW.C11
 open WW WW.Gen WW.Inc
 
@@ -132,6 +133,14 @@ theorem helper_keeps_nothing_reach (c : Cfg) (e0 : Nat) (bal : Bal) (ops : List 
     (h : step c (reach c (init e0 bal) ops) e (.helperDeposit a0 a1 dur) = .ok s') :
     balOf s' HELPER 0 = 0 :=
   (step_helper_keeps_nothing hs h).1
+
+/-- **helper, assets named in the wrong kind**: a helper deposit whose assets are named as the token that
+    spells `uwhale` or the denom that spells the cw20's address is refused in every state, whatever is
+    attached (the helper's allowance query on a token that does not exist fails; the pair refuses assets that
+    are not its own): no position, nothing moves. -/
+theorem helper_wrong_kind_refused {c : Cfg} {s s' : St} {e : Env} {x0 x1 a0 a1 dur : Nat} :
+    step c s e (.helperDepositAs x0 x1 a0 a1 dur) ≠ .ok s' :=
+  fun h => step_helperDepositAs h
 
 /-- **withdraw_exact**: a withdrawal (no funds attached) pays the sender exactly the sum of the sender's
     closed positions, out of the contract's LP balance; afterwards the sender has no closed position;
